@@ -462,3 +462,8 @@ def run(ck, prog, ctx):
                                 if st.k == "assign" and st.place.local == 0 and st.rv["k"] == "agg" and st.rv.get("variant") == "None":
                                     none_on_neg = True
             ck.ob("FIELD", nm + "/prune", ok and none_on_neg, "%s returns None unless other.id is in self.all_parents" % nm if ok and none_on_neg else "%s: pruning test does not have the shape `!self.all_parents.contains(other.id) -> None`" % nm, where=b.where(t.line))
+
+    # ---- accessors: a method named after a field returns that field, not a sibling of the same type
+    ck.rule("GETTER", "an accessor `f()` / `f_mut()` of a struct with a field `f` (or its documented alias) derives its result from that field (DESIGN 3.9)")
+    from engines import check_getters
+    check_getters(ck, "GETTER", prog, r"^src/term/(internal|hpoterm)\.rs$", floor=20)
